@@ -67,7 +67,7 @@ func (rs *s3ClientStorage) CreateBucket(ctx context.Context, bucketName storage.
 		return storage.ErrBucketAlreadyExists
 	}
 	if err != nil {
-		return err
+		return translateS3Error(err)
 	}
 	return nil
 }
@@ -87,7 +87,7 @@ func (rs *s3ClientStorage) DeleteBucket(ctx context.Context, bucketName storage.
 		return storage.ErrBucketNotEmpty
 	}
 	if err != nil {
-		return err
+		return translateS3Error(err)
 	}
 	return nil
 }
@@ -98,7 +98,7 @@ func (rs *s3ClientStorage) ListBuckets(ctx context.Context) ([]storage.Bucket, e
 
 	listBucketsResult, err := rs.s3Client.ListBuckets(ctx, &s3.ListBucketsInput{})
 	if err != nil {
-		return nil, err
+		return nil, translateS3Error(err)
 	}
 	buckets := sliceutils.Map(func(bucket types.Bucket) storage.Bucket {
 		return storage.Bucket{
@@ -121,7 +121,7 @@ func (rs *s3ClientStorage) HeadBucket(ctx context.Context, bucketName storage.Bu
 		return nil, storage.ErrNoSuchBucket
 	}
 	if err != nil {
-		return nil, err
+		return nil, translateS3Error(err)
 	}
 	return &storage.Bucket{
 		Name:         bucketName,
@@ -141,7 +141,7 @@ func (rs *s3ClientStorage) GetBucketVersioningConfiguration(ctx context.Context,
 		return nil, storage.ErrNoSuchBucket
 	}
 	if err != nil {
-		return nil, err
+		return nil, translateS3Error(err)
 	}
 	if result.Status == "" {
 		return &storage.BucketVersioningConfiguration{}, nil
@@ -159,7 +159,7 @@ func (rs *s3ClientStorage) PutBucketVersioningConfiguration(ctx context.Context,
 		status = types.BucketVersioningStatusEnabled
 	}
 	_, err := rs.s3Client.PutBucketVersioning(ctx, &s3.PutBucketVersioningInput{Bucket: aws.String(bucketName.String()), VersioningConfiguration: &types.VersioningConfiguration{Status: status}})
-	return err
+	return translateS3Error(err)
 }
 
 func (rs *s3ClientStorage) GetBucketNotificationConfiguration(ctx context.Context, bucketName storage.BucketName) (*storage.BucketNotificationConfiguration, error) {
@@ -174,7 +174,7 @@ func (rs *s3ClientStorage) GetBucketNotificationConfiguration(ctx context.Contex
 		return nil, storage.ErrNoSuchBucket
 	}
 	if err != nil {
-		return nil, err
+		return nil, translateS3Error(err)
 	}
 
 	config := &storage.BucketNotificationConfiguration{
@@ -252,7 +252,7 @@ func (rs *s3ClientStorage) PutBucketNotificationConfiguration(ctx context.Contex
 		Bucket:                    aws.String(bucketName.String()),
 		NotificationConfiguration: notificationConfiguration,
 	})
-	return err
+	return translateS3Error(err)
 }
 
 func s3EventsToStrings(events []types.Event) []string {
@@ -309,7 +309,7 @@ func (rs *s3ClientStorage) ListObjects(ctx context.Context, bucketName storage.B
 		return nil, storage.ErrNoSuchBucket
 	}
 	if err != nil {
-		return nil, err
+		return nil, translateS3Error(err)
 	}
 	objects := sliceutils.Map(func(object types.Object) storage.Object {
 		// S3 list responses only carry the checksum type and algorithm, not
@@ -350,7 +350,7 @@ func (rs *s3ClientStorage) ListObjectVersions(ctx context.Context, bucketName st
 		MaxKeys:         aws.Int32(opts.MaxKeys),
 	})
 	if err != nil {
-		return nil, err
+		return nil, translateS3Error(err)
 	}
 
 	versions := []storage.ObjectVersion{}
@@ -393,10 +393,15 @@ func (rs *s3ClientStorage) HeadObject(ctx context.Context, bucketName storage.Bu
 	})
 	var notFoundError *types.NotFound
 	if err != nil && errors.As(err, &notFoundError) {
-		return nil, storage.ErrNoSuchBucket
+		// A HEAD response carries no error code: ask for the bucket to tell
+		// a missing key from a missing bucket.
+		if _, bucketErr := rs.HeadBucket(ctx, bucketName); bucketErr != nil {
+			return nil, bucketErr
+		}
+		return nil, storage.ErrNoSuchKey
 	}
 	if err != nil {
-		return nil, err
+		return nil, translateS3Error(err)
 	}
 	var userMetadata map[string]string
 	if len(headObjectResult.Metadata) > 0 {
@@ -439,7 +444,11 @@ func (rs *s3ClientStorage) GetObject(ctx context.Context, bucketName storage.Buc
 	}
 
 	// First, get object metadata
-	object, err := rs.HeadObject(ctx, bucketName, key, nil)
+	var headOpts *storage.HeadObjectOptions
+	if opts != nil {
+		headOpts = &storage.HeadObjectOptions{VersionID: opts.VersionID}
+	}
+	object, err := rs.HeadObject(ctx, bucketName, key, headOpts)
 	if err != nil {
 		return nil, nil, err
 	}
@@ -479,7 +488,7 @@ func (rs *s3ClientStorage) GetObject(ctx context.Context, bucketName storage.Buc
 			for _, r := range readers {
 				r.Close()
 			}
-			return nil, nil, err
+			return nil, nil, translateS3Error(err)
 		}
 		readers = append(readers, getObjectResult.Body)
 	}
@@ -616,7 +625,7 @@ func (rs *s3ClientStorage) PutObject(ctx context.Context, bucketName storage.Buc
 		if errors.As(err, &apiErr) && apiErr.ErrorCode() == "PreconditionFailed" {
 			return nil, storage.ErrPreconditionFailed
 		}
-		return nil, err
+		return nil, translateS3Error(err)
 	}
 
 	return &storage.PutObjectResult{
@@ -653,6 +662,46 @@ func copySourceValue(srcBucket storage.BucketName, srcKey storage.ObjectKey, sou
 	return value
 }
 
+// s3ErrorCodeSentinels lists the storage errors that an S3 endpoint reports
+// through an error code equal to the error's text.
+var s3ErrorCodeSentinels = []error{
+	storage.ErrNoSuchBucket,
+	storage.ErrBucketAlreadyExists,
+	storage.ErrBucketNotEmpty,
+	storage.ErrNoSuchKey,
+	storage.ErrBadDigest,
+	storage.ErrInvalidPart,
+	storage.ErrInvalidPartOrder,
+	storage.ErrEntityTooLarge,
+	storage.ErrPreconditionFailed,
+	storage.ErrNotModified,
+	storage.ErrInvalidBucketName,
+	storage.ErrInvalidRange,
+	storage.ErrNoSuchWebsiteConfiguration,
+	storage.ErrNoSuchCORSConfiguration,
+	storage.ErrNoSuchLifecycleConfiguration,
+	storage.ErrTooManyParts,
+	storage.ErrInvalidWriteOffset,
+	storage.ErrInvalidStorageClass,
+	storage.ErrInvalidTag,
+	storage.ErrMetadataTooLarge,
+}
+
+// translateS3Error maps the error code of an S3 API error onto the storage
+// error of the same name, so callers see the error kinds the endpoint's own
+// storage reports. Other errors are returned unchanged.
+func translateS3Error(err error) error {
+	var apiErr smithy.APIError
+	if err != nil && errors.As(err, &apiErr) {
+		for _, sentinel := range s3ErrorCodeSentinels {
+			if apiErr.ErrorCode() == sentinel.Error() {
+				return sentinel
+			}
+		}
+	}
+	return err
+}
+
 func translateS3CopyError(err error) error {
 	var apiErr smithy.APIError
 	if errors.As(err, &apiErr) {
@@ -673,7 +722,7 @@ func translateS3CopyError(err error) error {
 	if errors.As(err, &noSuchKeyError) {
 		return storage.ErrNoSuchKey
 	}
-	return err
+	return translateS3Error(err)
 }
 
 func (rs *s3ClientStorage) CopyObject(ctx context.Context, srcBucket storage.BucketName, srcKey storage.ObjectKey, dstBucket storage.BucketName, dstKey storage.ObjectKey, opts *storage.CopyObjectOptions) (*storage.CopyObjectResult, error) {
@@ -793,7 +842,7 @@ func (rs *s3ClientStorage) DeleteObject(ctx context.Context, bucketName storage.
 		return nil, storage.ErrNoSuchBucket
 	}
 	if err != nil {
-		return nil, err
+		return nil, translateS3Error(err)
 	}
 	return &storage.DeleteObjectResult{VersionID: result.VersionId, IsDeleteMarker: aws.ToBool(result.DeleteMarker)}, nil
 }
@@ -824,7 +873,7 @@ func (rs *s3ClientStorage) DeleteObjects(ctx context.Context, bucketName storage
 		return nil, storage.ErrNoSuchBucket
 	}
 	if err != nil {
-		return nil, err
+		return nil, translateS3Error(err)
 	}
 
 	result := &storage.DeleteObjectsResult{
@@ -892,7 +941,7 @@ func (rs *s3ClientStorage) CreateMultipartUpload(ctx context.Context, bucketName
 		return nil, storage.ErrNoSuchBucket
 	}
 	if err != nil {
-		return nil, err
+		return nil, translateS3Error(err)
 	}
 	return &storage.InitiateMultipartUploadResult{
 		UploadId: storage.MustNewUploadId(*initiateMultipartUploadResult.UploadId),
@@ -925,7 +974,7 @@ func (rs *s3ClientStorage) UploadPart(ctx context.Context, bucketName storage.Bu
 		return nil, storage.ErrNoSuchBucket
 	}
 	if err != nil {
-		return nil, err
+		return nil, translateS3Error(err)
 	}
 	return &storage.UploadPartResult{
 		ETag:              *uploadPartResult.ETag,
@@ -1035,7 +1084,7 @@ func (rs *s3ClientStorage) CompleteMultipartUpload(ctx context.Context, bucketNa
 		if errors.As(err, &apiErr) && apiErr.ErrorCode() == "PreconditionFailed" {
 			return nil, storage.ErrPreconditionFailed
 		}
-		return nil, err
+		return nil, translateS3Error(err)
 	}
 	return &storage.CompleteMultipartUploadResult{
 		Location:          *completeMultipartUploadResult.Location,
@@ -1064,7 +1113,7 @@ func (rs *s3ClientStorage) AbortMultipartUpload(ctx context.Context, bucketName 
 		return storage.ErrNoSuchBucket
 	}
 	if err != nil {
-		return err
+		return translateS3Error(err)
 	}
 	return nil
 }
@@ -1086,7 +1135,7 @@ func (rs *s3ClientStorage) ListMultipartUploads(ctx context.Context, bucketName 
 		return nil, storage.ErrNoSuchBucket
 	}
 	if err != nil {
-		return nil, err
+		return nil, translateS3Error(err)
 	}
 
 	uploads := sliceutils.Map(func(upload types.MultipartUpload) storage.Upload {
@@ -1131,7 +1180,7 @@ func (rs *s3ClientStorage) ListParts(ctx context.Context, bucketName storage.Buc
 		return nil, storage.ErrNoSuchBucket
 	}
 	if err != nil {
-		return nil, err
+		return nil, translateS3Error(err)
 	}
 	return &storage.ListPartsResult{
 		BucketName:           storage.MustNewBucketName(*listPartsResult.Bucket),
@@ -1173,7 +1222,7 @@ func (rs *s3ClientStorage) GetBucketWebsiteConfiguration(ctx context.Context, bu
 		return nil, storage.ErrNoSuchBucket
 	}
 	if err != nil {
-		return nil, err
+		return nil, translateS3Error(err)
 	}
 
 	config := &storage.WebsiteConfiguration{}
@@ -1272,7 +1321,7 @@ func (rs *s3ClientStorage) PutBucketWebsiteConfiguration(ctx context.Context, bu
 		return storage.ErrNoSuchBucket
 	}
 	if err != nil {
-		return err
+		return translateS3Error(err)
 	}
 	return nil
 }
@@ -1289,7 +1338,7 @@ func (rs *s3ClientStorage) DeleteBucketWebsiteConfiguration(ctx context.Context,
 		return storage.ErrNoSuchBucket
 	}
 	if err != nil {
-		return err
+		return translateS3Error(err)
 	}
 	return nil
 }
@@ -1309,7 +1358,7 @@ func (rs *s3ClientStorage) GetBucketCORSConfiguration(ctx context.Context, bucke
 		return nil, storage.ErrNoSuchBucket
 	}
 	if err != nil {
-		return nil, err
+		return nil, translateS3Error(err)
 	}
 
 	rules := make([]storage.CORSRule, 0, len(result.CORSRules))
@@ -1364,7 +1413,7 @@ func (rs *s3ClientStorage) PutBucketCORSConfiguration(ctx context.Context, bucke
 		return storage.ErrNoSuchBucket
 	}
 	if err != nil {
-		return err
+		return translateS3Error(err)
 	}
 	return nil
 }
@@ -1381,7 +1430,7 @@ func (rs *s3ClientStorage) DeleteBucketCORSConfiguration(ctx context.Context, bu
 		return storage.ErrNoSuchBucket
 	}
 	if err != nil {
-		return err
+		return translateS3Error(err)
 	}
 	return nil
 }
@@ -1583,7 +1632,7 @@ func (rs *s3ClientStorage) GetBucketLifecycleConfiguration(ctx context.Context, 
 		return nil, storage.ErrNoSuchBucket
 	}
 	if err != nil {
-		return nil, err
+		return nil, translateS3Error(err)
 	}
 
 	rules := make([]storage.LifecycleRule, 0, len(result.Rules))
@@ -1614,7 +1663,7 @@ func (rs *s3ClientStorage) PutBucketLifecycleConfiguration(ctx context.Context, 
 		return storage.ErrNoSuchBucket
 	}
 	if err != nil {
-		return err
+		return translateS3Error(err)
 	}
 	return nil
 }
@@ -1631,7 +1680,7 @@ func (rs *s3ClientStorage) DeleteBucketLifecycleConfiguration(ctx context.Contex
 		return storage.ErrNoSuchBucket
 	}
 	if err != nil {
-		return err
+		return translateS3Error(err)
 	}
 	return nil
 }
@@ -1653,7 +1702,7 @@ func (rs *s3ClientStorage) GetObjectTagging(ctx context.Context, bucketName stor
 		return nil, storage.ErrNoSuchKey
 	}
 	if err != nil {
-		return nil, err
+		return nil, translateS3Error(err)
 	}
 
 	tags := map[string]string{}
@@ -1689,7 +1738,7 @@ func (rs *s3ClientStorage) PutObjectTagging(ctx context.Context, bucketName stor
 		return storage.ErrNoSuchKey
 	}
 	if err != nil {
-		return err
+		return translateS3Error(err)
 	}
 	return nil
 }
@@ -1711,7 +1760,7 @@ func (rs *s3ClientStorage) DeleteObjectTagging(ctx context.Context, bucketName s
 		return storage.ErrNoSuchKey
 	}
 	if err != nil {
-		return err
+		return translateS3Error(err)
 	}
 	return nil
 }
